@@ -435,6 +435,53 @@ def write_replay(rep, n, body):
     return path
 
 
+def build_race_harness(rep):
+    out = os.path.join(BUILD, 'live-race')
+    rc, o = sh(['go', 'build', '-race', '-tags', 'verif', '-o', out, './cmd/live'],
+               cwd=os.path.join(V, 'harness'), env=dict(GOENV, CGO_ENABLED='1'), timeout=900)
+    if rc:
+        rep.notes.append('race-detector build of the live harness failed: ' + o[-500:])
+        return None
+    return out
+
+
+def run_live_race(rep, props, tier='quick'):
+    """live scenarios under the Go race detector (search aid / cross-check of the access table)"""
+    exe = build_race_harness(rep)
+    if exe is None:
+        return
+    import subprocess
+    for pid in props:
+        tag = f'{rep.pid}_race_{pid}'
+        tr = os.path.join(WORK, f'traces_{tag}.txt')
+        vd = os.path.join(WORK, f'liveverdicts_{tag}.txt')
+        with open(tr, 'w') as f:
+            rc = subprocess_run_to(f, [exe, '-prop', pid, '-tier', tier, '-seed', str(rep.seed), '-par', str(max(2, (os.cpu_count() or 8) // 2))])
+        if rc:
+            continue
+        with open(tr) as fi, open(vd, 'w') as fo:
+            subprocess_run_to(fo, [DRIVER, 'live'], stdin=fi)
+        traces, cur, name = {}, [], None
+        for l in open(tr):
+            if l.startswith('# scenario '):
+                name, cur = l[11:].strip(), []
+            elif l.startswith('# end'):
+                traces[name] = cur
+            else:
+                cur.append(l.rstrip('\n'))
+        res = [LIVE_RE.match(l.rstrip('\n')).groups() for l in open(vd) if LIVE_RE.match(l.rstrip('\n'))]
+        # only race reports count here: timing monitors are not meaningful under the detector's slowdown
+        res = [r for r in res if r[1] == 'ok' or 'data race' in r[2]]
+        absorb_live(rep, res, traces, engine='live-race')
+        rep.extra['race_detector_scenarios'] = rep.extra.get('race_detector_scenarios', 0) + len(traces)
+
+
+def search_live(rep):
+    cfg = P.PROPS[rep.pid]
+    if cfg.get('race_search'):
+        run_live_race(rep, cfg['race_search'])
+
+
 def search_l0(rep):
     """after a broken obligation / correspondence: look harder for an input on which the oracle fails"""
     if not P.PROPS[rep.pid].get('l0') or not os.path.exists(os.path.join(BUILD, 'l0')) or not os.path.exists(DRIVER):
@@ -466,6 +513,7 @@ def verdict(rep):
     if (rep.broken or new_dis) and not new_fail:
         before = len(rep.failures)
         search_l0(rep)
+        search_live(rep)
         for f in rep.failures[before:]:
             if not any(match_known(k, f) for k in known):
                 new_fail.append(f)
@@ -539,6 +587,8 @@ def run_check(pid, tier, seed):
             run_l0(rep)
         if cfg.get('live'):
             run_live(rep)
+        if cfg.get('race_search') and tier == 'thorough':
+            run_live_race(rep, cfg['race_search'])
         for eng in cfg.get('engines', []):
             eng(rep)
     lines, nviol = verdict(rep)
@@ -569,6 +619,19 @@ def replay(path):
             if oracle.startswith('FAIL') or agree != 'agree':
                 print(f'VIOLATION property={pid} replay={path}')
                 return 1
+        return 0
+    if body.get('engine') == 'live-race' and body.get('case'):
+        rep.pid = pid
+        exe = build_race_harness(rep)
+        f = os.path.join(WORK, 'replay_spec.txt')
+        open(f, 'w').write((body['case'] + '\n') * 5)
+        rc, out = sh(f'{exe} -specs {f} -par 1 | {DRIVER} live')
+        n = out.count('data race')
+        print(f'scenario {body["case"]} re-run 5 times under the race detector: {n} race reports')
+        print('\n'.join(l[:300] for l in out.split('\n') if 'data race' in l))
+        if n:
+            print(f'VIOLATION property={pid} replay={path}')
+            return 1
         return 0
     if body.get('engine') == 'live' and body.get('case'):
         bad = 0
